@@ -10,6 +10,10 @@ Leg T: random frames (1-12 rows, up to 5 levels, nulls, declared categoricals), 
 Leg R: every enumerated case is built by model_matrix for the pandas, numpy and sparse outputs;
        names (from the attached spec and, for pandas, the frame labels) and every cell are
        compared with the matrix the specification computes in exact integers.
+       MC_MatLevels: the levels of a categorical factor named in the formula (C(A, levels=[...]), 4 orders) or recorded by the spec
+       attached to a first matrix, against the STORAGE of the column (objects / a categorical dtype declaring the levels in 4 orders);
+       TLC proves that a column e[l] is the indicator of the value l whatever the storage, refutes the design that reads the dtype's
+       integer codes against the given levels (Variant "codes"), and emits every case for the replay (3 outputs + re-application).
 """
 from __future__ import annotations
 
@@ -77,6 +81,91 @@ def replay_case(case):
     return bad
 
 
+def replay_levels(case):
+    """One case of MC_MatLevels: the first build on the frame held in storage `sto` (every output), or - when the case has a
+    re-application - one rotating output of it (the same first build is replayed with every output by the sibling case without one) and the
+    spec attached to that matrix applied to the same rows held in storage `sto2` (alternating entry point)."""
+    import warnings
+
+    from formulaic import model_matrix
+
+    formula = matlib.render_formula(case["written"], case["icpt"])
+    df, df2 = matlib.gamma_frame(case["frame"]), matlib.gamma_frame(case["frame2"])
+    h = sum(map(ord, formula)) + case["vid"] + case["sto"] + (7 if case["full_rank"] else 0)
+    bad = []
+
+    def compare(mm, output, base, names_x, cells_x):
+        names, cells, labels, _, _ = matlib.alpha_matrix(mm, output)
+        if names != names_x:
+            bad.append({**base, "why": "column-names", "observed": names, "expected": names_x})
+        elif labels is not None and labels != names:
+            bad.append({**base, "why": "frame-labels-differ-from-spec-names", "observed": labels, "expected": names})
+        elif cells != cells_x:
+            j = next((j for r in range(len(cells)) for j in range(len(names)) if cells[r][j] != cells_x[r][j]), None) if len(cells) == len(cells_x) else None
+            bad.append({**base, "why": "cells", "column": names[j] if j is not None else None, "observed": cells, "expected": cells_x})
+
+    for output in ([OUTPUTS[h % len(OUTPUTS)]] if case["reapply"] else OUTPUTS):
+        base = {"formula": formula, "fid": f"levels:values{case['vid']}/A stored as {_storage(case['frame'])}", "output": output,
+                "full_rank": case["full_rank"], "na": "drop", "cluster": False}
+        o = matlib.observe_build(formula, df, output=output, full_rank=case["full_rank"])
+        if o["st"] != "OK":
+            bad.append({**base, "why": "exception", "observed": o.get("cls"), "msg": o.get("msg")})
+            continue
+        compare(o["mm"], output, base, case["names"], case["cells"])
+        if case["reapply"]:
+            base2 = {**base, "path": f"spec attached to the first matrix applied to the same rows with A stored as {_storage(case['frame2'])}"}
+            try:
+                with warnings.catch_warnings():
+                    warnings.simplefilter("ignore")
+                    spec = o["mm"].model_spec
+                    mm2 = spec.get_model_matrix(df2, context={}) if (h // 3) % 2 else model_matrix(spec, df2, context={})
+            except Exception as e:  # noqa
+                bad.append({**base2, "why": "exception", "observed": type(e).__name__, "msg": str(e)[:160]})
+                continue
+            compare(mm2, output, base2, case["names2"], case["cells2"])
+    return bad
+
+
+def _storage(frame):
+    c = frame["cols"]["A"]
+    return "categorical" + json.dumps(c["lv"]) if c["declared"] else "objects"
+
+
+def run_levels(ctx: Ctx) -> None:
+    """Leg M + R over MC_MatLevels (the storage of a categorical column against the levels that are given); the family is small and
+    fixed, so it is enumerated completely on both tiers."""
+    from ..tlc import read_emitted, run_tlc, workdir
+
+    out = workdir("c02") / "matlevels.ndjson"
+    out.unlink(missing_ok=True)
+    cfg = 'SPECIFICATION Spec\nCONSTANTS\n  Emit = {}\n  Variant = "{}"\nINVARIANT Laws\n'
+    r = run_tlc("MC_MatLevels", cfg.format("TRUE", "levels") + "INVARIANT EmitCase\n", tag="c02", env={"OUT_FILE": str(out)}, timeout=3000)
+    if r.violated:
+        ctx.model_violation(r, "MC_MatLevels")
+    ctx.add_tlc(r, "given levels x storage of the column (Indicators, StorageIrrelevant, ReapplyStable) + emission")
+    # the laws are not vacuous on the family: TLC refutes the design that keeps the integer codes of a categorical dtype over the same set of levels
+    v = run_tlc("MC_MatLevels", cfg.format("FALSE", "codes"), tag="c02", timeout=3000)
+    if "Laws" not in v.violated:
+        raise MachineryError("MC_MatLevels variant codes does not violate the laws: the bounded family is vacuous")
+    ctx.notes["matlevels_variant_codes"] = "violates " + ",".join(v.violated)
+    cases = read_emitted(out)
+    if len(cases) != r.distinct or not cases:
+        raise MachineryError(f"MC_MatLevels emission incomplete: {len(cases)} of {r.distinct}")
+    out.unlink()
+    res = pmap("harness.props.c02", "replay_levels", cases, chunk=100)
+    ctx.require("replay: given levels x storage cases", len(cases), 1000)
+    ctx.require("replay: re-applications of the attached spec to another storage", sum(1 for c in cases if c["reapply"]), 500)
+    ctx.require("replay: levels named in another order than the categorical dtype declares", sum(1 for c in cases if c["reordered"]), 300)
+    for c, bad in zip(cases, res):
+        n = 2 if c["reapply"] else len(OUTPUTS)
+        ctx.traces += n
+        ctx.evaluations += n
+        if len(c["names"]) >= 2 and len(c["kept"]) >= 2:
+            ctx.nontrivial.add(jhash(["levels", c["written"], c["icpt"], c["vid"], c["sto"], c["tgt"], c["sto2"], c["full_rank"]]))
+        for b in bad:
+            ctx.violation({k: b[k] for k in ("formula", "fid", "output", "full_rank", "na", "cluster")}, b, kind="replay")
+
+
 def run(ctx: Ctx) -> None:
     global FRAMES
     ctx.rule = ("every formula of <= MaxTerms distinct terms from a pool of 19 terms (numeric, categorical, C(...) with sum/helmert/SAS contrasts, "
@@ -101,6 +190,7 @@ def run(ctx: Ctx) -> None:
     for c in [c for c in cases if len(c["names"]) >= 4][:2]:
         ctx.sample({"formula": matlib.render_formula(c["written"], c["icpt"]), "frame": c["fid"], "full_rank": c["full_rank"],
                     "names": c["names"], "cells": c["cells"]})
+    run_levels(ctx)
     ctx.exhaustive = True
     # leg T: random frames / formulas / options far outside the enumerated frames, validated by TLC
     from .. import mattrace
